@@ -78,11 +78,13 @@ theorem c05_follows_last_child (fs : Array Frame) :
         have happ := followsLastChild_append fs acc ⟨cur, f.curError, branches⟩ hacc hlink
         split
         · exact happ
-        · apply ih child _ happ
-          intro a ha
-          simp at ha
-          subst ha
-          simp [hf, hlc]
+        · split
+          · exact happ
+          · apply ih child _ happ
+            intro a ha
+            simp at ha
+            subst ha
+            simp [hf, hlc]
 
 /-- **Entering a call makes it the LAST_CHILD_SCOPE of the scope it was called with** (so the
     pointer always designates the most recently started sub-evaluation: the one that raised, since
